@@ -10,6 +10,7 @@ LEVEL_TEXT = ("Position monitoring against an independent line/column/offset mod
               "model's at their end offset; ParseError entries must quote a window of the input whose highlighted part sits at "
               "the reported line/col; TokenError offsets must select the snippet quoted in the message; identifier position "
               "meta must cover the identifier's own lexeme.")
+LEVEL_TEXT += (' Every third input is tokenized again by a long-lived Tokenizer object that has just handled an input ending in a line break, a comment or an error.')
 LEVEL_NOTE = "the model defines a line break as LF, or CR not followed by LF (what the tokenizer documents through its _advance rule)"
 TECHNIQUE = "runtime monitoring: independent position model checked against every token / error / node position"
 RULE = ("core-grammar statements re-spaced with every blank kind (space, tab, LF, CRLF, CR, form feed, block and line comments), "
